@@ -16,6 +16,11 @@ type Finding struct {
 	Commit   string `json:"commit,omitempty"`
 	What     string `json:"what"`
 	Line     string `json:"line,omitempty"`
+	// Example is a replayable trace of one concrete failing input of a "known"
+	// entry. Every run replays it first, so the KNOWN-FINDING line appears on
+	// every run while the defect exists (and not only when the seeded search
+	// happens to meet the class again).
+	Example json.RawMessage `json:"example,omitempty"`
 }
 
 type Findings struct {
